@@ -80,6 +80,8 @@ def mk_default(d):
         return None
     if d["kind"] == "str":
         return d["v"]
+    if d["kind"] == "func":  # a SQL function element (ColumnElement): rendered as DEFAULT (<fn>) by SQLAlchemy
+        return getattr(sa.func, d["v"])()
     return sa.text(d["v"])
 
 
